@@ -543,7 +543,7 @@ func runPlan(p Plan) (vk.Outcome, error) {
 		if dead {
 			out.Label("answered-after-a-panic")
 		}
-		if mustPanic && !ended { // (an iterator that has already finished may also just stay finished)
+		if mustPanic { // (also for an iterator that had already reported the end: "panics if ... modified since iteration started")
 			return vk.Violf("no-panic-after-add-remove", "%s: an element was added/removed after iteration had started, yet Next returned (%v,%v) instead of panicking; history %v",
 				what, v, ok, history)
 		}
